@@ -116,7 +116,7 @@ VARIABLES
   seq,      \* the client's sequence counter
   c2s, s2c, \* FIFO channels: sequences of [name, mt, seq, toks]
   cli,      \* [st |-> "idle"] | [st |-> "wait", k |-> request index]
-  srv,      \* [st |-> "idle"] | [st |-> "hdr"|"unk"|"args"|"done", k, msg, ...]
+  srv,      \* [st |-> "idle"] | [st |-> "hdr"|"unk"|"args"|"argerr"|"done", k, msg, ...]
   reqs,     \* history: one record per request put on the connection
   nread,    \* history: number of requests the server has taken off the connection
   replies   \* history: <<seq>> of every message ever written to the reply channel, in order
@@ -149,15 +149,19 @@ SendCall(r, a, mt, toks) ==
   /\ cli' = IF Meth(r).oneway THEN Idle ELSE [st |-> "wait", k |-> Len(reqs) + 1]
   /\ UNCHANGED <<svc, s2c, srv, nread, replies>>
 
-(* A message for a name the service does not have is put on the connection as raw bytes. *)
+(* A request is put on the connection as raw bytes, not by the generated client: an unknown method name, or a   *)
+(* known one with the argument struct encoded in another way than the generated client does.                  *)
 InjectRaw(name, s, toks) ==
   /\ svc # 0 /\ cli = Idle
-  /\ Lookup(svc, name) = {}
   /\ IsDone(ParseTokens(toks)) = TRUE
-  /\ c2s' = Append(c2s, [name |-> name, mt |-> CALL, seq |-> s, toks |-> toks])
-  /\ reqs' = Append(MarkLag(reqs), [kind |-> "raw", r |-> <<0, 0>>, name |-> name, seq |-> s, a |-> NONE, oneway |-> FALSE,
-                                    lag |-> FALSE, seen |-> NONE, out |-> NONE, res |-> NONE])
-  /\ cli' = [st |-> "wait", k |-> Len(reqs) + 1]
+  /\ LET known == Lookup(svc, name) # {}
+         r == IF known THEN CHOOSE r \in Lookup(svc, name) : TRUE ELSE <<0, 0>>
+         ow == IF known THEN Meth(r).oneway ELSE FALSE IN
+     /\ c2s' = Append(c2s, [name |-> name, mt |-> CALL, seq |-> s, toks |-> toks])
+     /\ reqs' = Append(MarkLag(reqs), [kind |-> "raw", r |-> r, name |-> name, seq |-> s, a |-> NONE, oneway |-> ow,
+                                       lag |-> FALSE, seen |-> NONE, out |-> NONE,
+                                       res |-> IF ow THEN [k |-> "none"] ELSE NONE, body |-> toks])
+     /\ cli' = IF ow THEN Idle ELSE [st |-> "wait", k |-> Len(reqs) + 1]
   /\ UNCHANGED <<svc, seq, s2c, srv, nread, replies>>
 
 SrvReadHeader ==
@@ -190,6 +194,29 @@ SrvReadArgs ==
          d == DecStruct(Meth(r).args, srv.msg.toks) IN
      /\ ~d.err
      /\ srv' = [st |-> "args", k |-> srv.k, msg |-> srv.msg, r |-> r, args |-> d.v]
+  /\ UNCHANGED <<svc, seq, c2s, s2c, cli, reqs, nread, replies>>
+
+(* ... or cannot be read (a required argument is missing): the handler does not run *)
+SrvArgsError ==
+  /\ srv.st = "hdr" /\ Lookup(svc, srv.msg.name) # {}
+  /\ LET r == CHOOSE r \in Lookup(svc, srv.msg.name) : TRUE IN
+     /\ DecStruct(Meth(r).args, srv.msg.toks).err
+     /\ srv' = [st |-> "argerr", k |-> srv.k, msg |-> srv.msg, r |-> r]
+  /\ reqs' = [reqs EXCEPT ![srv.k].out = [k |-> "argerr"]]
+  /\ UNCHANGED <<svc, seq, c2s, s2c, cli, nread, replies>>
+
+(* and the caller is told so with an application exception -- unless the method is oneway *)
+SrvProtocolError(toks) ==
+  /\ srv.st = "argerr" /\ ~Meth(srv.r).oneway
+  /\ AppExcTree(TreeOf(toks)) = TRUE
+  /\ s2c' = Append(s2c, [name |-> srv.msg.name, mt |-> EXCEPTION, seq |-> srv.msg.seq, toks |-> toks])
+  /\ replies' = Append(replies, srv.msg.seq)
+  /\ srv' = Idle
+  /\ UNCHANGED <<svc, seq, c2s, cli, reqs, nread>>
+
+SrvArgsErrorSilent ==
+  /\ srv.st = "argerr" /\ Meth(srv.r).oneway
+  /\ srv' = Idle
   /\ UNCHANGED <<svc, seq, c2s, s2c, cli, reqs, nread, replies>>
 
 (* the handler runs: it sees the arguments and answers with outcome o *)
@@ -249,7 +276,10 @@ ResultDelivered ==
   \A k \in 1..Len(reqs) : (Answered(k) /\ ~reqs[k].oneway) =>
      LET c == reqs[k]  o == c.out  res == c.res IN
      /\ Handled(k)
-     /\ IF c.kind = "raw" THEN o.k = "unknown" /\ res.k = "app"
+     /\ IF c.kind = "raw"
+        THEN CASE o.k \in {"unknown", "argerr", "other"} -> res.k = "app"
+               [] o.k \in {"val", "void", "exc"} -> res.k = "rawreply"
+               [] OTHER -> FALSE
         ELSE LET m == Meth(c.r) IN
           CASE o.k = "val" -> res.k = "val" /\ CAbs(m.ret, res.v) = Arrives(m.ret, o.v, TRUE)
             [] o.k = "void" -> res.k = "void"
